@@ -241,6 +241,13 @@ theorem C18_shape_entry (lib : List Nat) (run : Nat) (f : File) :
     Shape.entryG Gen.entryOps lib run f = some (upgrade lib run f) :=
   ⟨shape_id_valid f, rfl, shape_entry lib run f⟩
 
+/-- The link group `update_alias_dims` writes as written (fresh id, `data_object_type`, `index`, both time stamps, the
+member named like the array's id) is the model's `newLink`, which `RangeDimension`'s readers follow to the array. -/
+theorem C18_shape_link (run : Nat) (daid : String) :
+    Shape.newLinkG Gen.linkAttrs Gen.dimOps run daid = some (newLink run daid) ∧
+    (newLink run daid).dataObjectType = "DataArray" ∧ (newLink run daid).index = [-1] :=
+  ⟨shape_link run daid, rfl, rfl⟩
+
 /-! ## content -/
 
 /-- "the upgrade succeeds and the file reads as before": every compound property is now a plain one
